@@ -386,6 +386,7 @@ func checkC18(w *World, r *Report) {
 	c18SourceAndHash(w, r, byFn)
 	c18Events(w, r, touches)
 	c18Singleton(w, r, byFn, touches)
+	c18StateNotACopy(w, r, byFn)
 }
 
 // errorsIsTarget returns the package-level sentinel an errors.Is call tests for.
@@ -1185,5 +1186,82 @@ func c18Singleton(w *World, r *Report, byFn map[*ssa.Function][]provSite, touche
 	}
 	if n == 0 {
 		r.Undecided(ri, "no scheduled provider task found")
+	}
+}
+
+// c18StateNotACopy (C18.1b): the map the bookkeeping writes into is the provider's persistent
+// state. If a function hands the bookkeeping a fresh copy (maps.Clone, make), every path after
+// the call - in particular the one on which a later source of the same poll was rejected - must
+// store the copy back, or what was recorded for the sources already applied is forgotten and
+// they are created again at the next poll.
+func c18StateNotACopy(w *World, r *Report, byFn map[*ssa.Function][]provSite) {
+	ri := r.Rule("C18.1b", 1, "the state map handed to the bookkeeping is the provider's persistent state, or a copy that is stored back on every path after the call (also when a later source of the same poll was rejected)")
+	n := 0
+	for callee := range byFn {
+		// which parameter is the state map?
+		stateIdx := -1
+		for i, p := range callee.Params {
+			if _, isMap := p.Type().Underlying().(*types.Map); isMap && (strings.Contains(p.Type().String(), "State") || strings.Contains(strings.ToLower(p.Name()), "state")) {
+				stateIdx = i
+			}
+		}
+		if stateIdx < 0 {
+			continue
+		}
+		for _, e := range w.CG().In[callee] {
+			call, ok := e.Site.(*ssa.Call)
+			if !ok || e.Kind != "static" || stateIdx >= len(call.Common().Args) {
+				continue
+			}
+			n++
+			caller := e.Caller
+			r.Analysed(w.FnName(caller))
+			arg := call.Common().Args[stateIdx]
+			fresh := false
+			for _, o := range w.Origins(arg, nil) {
+				switch x := o.(type) {
+				case *ssa.MakeMap:
+					fresh = true
+				case *ssa.Call:
+					if strings.Contains(callName(x.Common()), "maps.Clone") {
+						fresh = true
+					}
+				}
+			}
+			ok2 := true
+			if fresh {
+				// every return reachable after the call must be preceded by a store of the copy into a sync.Map / field
+				stored := map[*ssa.BasicBlock]bool{}
+				for _, ci := range callsIn(caller) {
+					if callName(ci.Common()) == "sync.Map.Store" && len(ci.Common().Args) == 3 && sameValue(ci.Common().Args[2], arg) && reachableAfter(call, ci) {
+						stored[ci.Block()] = true
+					}
+				}
+				seen := map[*ssa.BasicBlock]bool{call.Block(): true}
+				work := []*ssa.BasicBlock{call.Block()}
+				for len(work) > 0 && ok2 {
+					b := work[len(work)-1]
+					work = work[:len(work)-1]
+					if b != call.Block() || !stored[b] {
+						if _, isRet := b.Instrs[len(b.Instrs)-1].(*ssa.Return); isRet && !stored[b] {
+							ok2 = false
+						}
+					}
+					for _, sb := range b.Succs {
+						if !seen[sb] && !stored[sb] {
+							seen[sb] = true
+							work = append(work, sb)
+						} else if !seen[sb] && stored[sb] {
+							seen[sb] = true
+						}
+					}
+				}
+			}
+			r.Ob(ri, fmt.Sprintf("%s|state-for-%s", w.FnName(caller), callee.Name()), call.Pos(), ok2,
+				"the bookkeeping works on a copy of the state that is not stored back on every path after the call: if one source of a poll is rejected, the hashes recorded for the sources applied before it are lost and those sources are created again at the next poll")
+		}
+	}
+	if n == 0 {
+		r.Undecided(ri, "no call handing a state map to the bookkeeping found")
 	}
 }
